@@ -30,7 +30,7 @@ package restorer
 //   options: quick {always, always+delete+sparse, never+delete, if-newer,
 //      if-changed+delete}; thorough all of delete x overwrite(4) x sparse; in
 //      thorough F2 is additionally combined with a pre-existing target/x in
-//      {symlink -> outside dir, non-empty dir, file}.
+//      {symlink -> outside dir, non-empty dir, file} (triples: symlink only).
 // Restore runs with an error handler that records and continues (as
 // cmd/restic does).  Errors are fine.
 //
@@ -362,7 +362,8 @@ func verifC18Cases(s verifC18Sandbox, thorough bool) []verifC18Case {
 		for j := range kinds {
 			cases = append(cases, verifC18Case{key: fmt.Sprintf("F2|%d,%d", i, j), nodes: []verifC18Node{kinds[i], kinds[j]}, pres: f2pres})
 			for k := range kinds {
-				cases = append(cases, verifC18Case{key: fmt.Sprintf("F2|%d,%d,%d", i, j, k), nodes: []verifC18Node{kinds[i], kinds[j], kinds[k]}, pres: f2pres})
+				// triples: only the symlink pre-state in addition to the empty target (bounds the thorough tier)
+				cases = append(cases, verifC18Case{key: fmt.Sprintf("F2|%d,%d,%d", i, j, k), nodes: []verifC18Node{kinds[i], kinds[j], kinds[k]}, pres: f2pres[:min(2, len(f2pres))]})
 			}
 		}
 	}
